@@ -71,8 +71,8 @@ _hist_prop("C18", ["CC.Props.C18", "CC.Props.NonVacuity"],
     "Lean theorems: full_decaps recovers exactly the rights whose newest secret is activated and one of whose secrets opens a component; recaps draws a new secret and targets the published keys of exactly those rights in the flavour they all support; it fails when nothing is recovered; an up-to-date authorised key opens the result; over every history no key whose rights are all outside the recovered ones opens it (tokens never serve two rights: no_other_key_opens_recaps). Correspondence: histories with recaps after rekeys/prunes/disables/deletions under every public key; decaps matrices of the outputs compared")
 
 PROPS["C12"] = {
-    "modules": ["CC.Props.C12"], "campaigns": [hist("C12", BOTH), {"name": "golden", "configs": ONE}], "quick_configs": ONE, "tables": {"labels": "supporting"},
-    "level_text": "Lean theorems over the KEM-DEM composition with an idealised AEAD: PKE and header round trips for every plaintext / metadata / authentication data, unauthorised => none, tampered or truncated or re-keyed ciphertext => error, AD mismatch => error when metadata is present (partial; the full statement is disproved by a witness: known finding D12), labels read from the source pairwise distinct. Correspondence + specification oracle: every plaintext length 0..70 and around 4/8 KiB, metadata x AD matrix, truncation at every length, bit flips, splices; each line compared with the model and with what the specification demands",
+    "modules": ["CC.Props.C12"], "campaigns": [hist("C12", BOTH), hist("C12h", ONE), {"name": "golden", "configs": ONE}], "quick_configs": ONE, "tables": {"labels": "supporting"},
+    "level_text": "Lean theorems over the KEM-DEM composition with an idealised AEAD: PKE and header round trips for every plaintext / metadata / authentication data, unauthorised => none, tampered or truncated or re-keyed ciphertext => error, AD mismatch => error when metadata is present (partial; the full statement is disproved by a witness: known finding D12), labels read from the source pairwise distinct. Correspondence + specification oracle: every plaintext length 0..70 and around 4/8 KiB, metadata x AD matrix, truncation at every length, bit flips, splices; each line compared with the model and with what the specification demands; and inside histories (campaign C12h): ciphertexts and headers made under any published key, with absent / empty / non-empty metadata and authentication data, opened by every key after rotations, refreshes, edits and store / load, compared with the model",
     "level_note": "AES-256-GCM idealised (opens only what was sealed with the same key, nonce, AD; any alteration is detected); SymmetricKey::derive / kdf256 idealised as injective in (seed, label)",
 }
 
